@@ -7,7 +7,7 @@ use serde_json::json;
 pub fn run(ctx: &Ctx) -> Outcome {
     let sp = spaces::c01_space(ctx.tier, ctx.seed, false, 4, 5, 3, 3, 2_000, 30_000);
     let texts = spaces::texts_c01(3);
-    let cfg = DiffCfg { prop: "C02", compare: Compare::Groups, entry_points: false, ref_budget: crate::refm::BUDGET, step_cap: Some(2_000_000), exclude: &diff::default_exclude, static_known: &diff::no_static_known, style: None, f1_compat: false };
+    let cfg = DiffCfg { prop: "C02", compare: Compare::Groups, entry_points: false, ref_budget: crate::refm::BUDGET, step_cap: Some(2_000_000), exclude: &diff::default_exclude, static_known: &diff::fy_known, style: None, f1_compat: false };
     let mut acc = diff::run(ctx, &cfg, &sp.patterns, &texts);
     let mut describe = sp.describe.clone();
     if ctx.tier == Tier::Thorough {
@@ -44,6 +44,14 @@ pub fn run(ctx: &Ctx) -> Outcome {
     }
     // wide match state: 3-8 groups in a counted loop that has to be undone
     {
+        {
+            let texts = crate::gen::texts(&["a", "b", "-"], 4);
+            let items: Vec<diff::PairItem> = crate::gen::common_prefix_alt_family().into_iter().map(|p| diff::PairItem { pattern: p, reference: None, texts: texts.clone(), all_offsets: true }).collect();
+            let a8 = diff::run_items(ctx, "C02", &items, true, crate::refm::BUDGET);
+            acc.add("common-prefix-alternation-evaluations", a8.evals);
+            acc.merge(a8);
+            describe.push_str(&format!("; plus {} alternations whose branches start with the same element (family of finding FY) x all texts over a b - up to length 4", items.len()));
+        }
         let fam = crate::gen::wide_group_family(ctx.seed, ctx.tier.pick(1_500, 20_000), true);
         let a5 = diff::run_pairs(ctx, "C02", &fam, true, 2_000_000);
         acc.add("wide-state-evaluations", a5.evals);
